@@ -1024,6 +1024,78 @@ def m_unpack(I, args, kwargs):
     return tuple(out)
 
 
+# ----------------------------------------------------------------------------- datetime constructors
+import datetime as _dt  # noqa: E402
+
+
+def _need_int(I, v, what):
+    if not is_intlike(v):
+        I.raise_py(TypeError, f"an integer is required for {what}")
+    return iexpr(v)
+
+
+def _check_date(I, y, m, d):
+    ok_range = z3.And(y >= 1, y <= 9999, m >= 1, m <= 12, d >= 1)
+    leap = z3.And(y % 4 == 0, z3.Or(y % 100 != 0, y % 400 == 0))
+    dim = z3.If(z3.Or(m == 4, m == 6, m == 9, m == 11), 30, z3.If(m == 2, z3.If(leap, 29, 28), 31))
+    if not I.path.decide(z3.And(ok_range, d <= dim)):
+        I.raise_py(ValueError, "date value out of range")
+
+
+def _check_time(I, h, mi, s, us=None):
+    c = z3.And(h >= 0, h <= 23, mi >= 0, mi <= 59, s >= 0, s <= 59)
+    if us is not None:
+        c = z3.And(c, us >= 0, us <= 999999)
+    if not I.path.decide(c):
+        I.raise_py(ValueError, "time value out of range")
+
+
+@model(_dt.date)
+def m_date(I, args, kwargs):
+    """datetime.date(y, m, d): ValueError for a non-existent calendar date, else a value object."""
+    if not _sym(args) and not _sym(kwargs):
+        return _native(I, _dt.date, args, kwargs)
+    names = ("year", "month", "day")
+    vals = dict(zip(names, args))
+    vals.update(kwargs)
+    y, m, d = (_need_int(I, vals[n], n) for n in names)
+    _check_date(I, y, m, d)
+    return Opaque("date", {"year": vals["year"], "month": vals["month"], "day": vals["day"], "__class__": _dt.date})
+
+
+@model(_dt.time)
+def m_time(I, args, kwargs):
+    if not _sym(args) and not _sym(kwargs):
+        return _native(I, _dt.time, args, kwargs)
+    names = ("hour", "minute", "second", "microsecond")
+    vals = {"hour": 0, "minute": 0, "second": 0, "microsecond": 0}
+    vals.update(dict(zip(names, args)))
+    vals.update({k: v for k, v in kwargs.items() if k in names})
+    if any(k not in names and k != "tzinfo" for k in kwargs):
+        raise Unsupported("datetime.time with unusual keywords")
+    _check_time(I, *(_need_int(I, vals[n], n) for n in names))
+    return Opaque("time", dict(vals, __class__=_dt.time))
+
+
+@model(_dt.datetime)
+def m_datetime(I, args, kwargs):
+    if not _sym(args) and not _sym(kwargs):
+        return _native(I, _dt.datetime, args, kwargs)
+    names = ("year", "month", "day", "hour", "minute", "second", "microsecond")
+    vals = {"hour": 0, "minute": 0, "second": 0, "microsecond": 0}
+    vals.update(dict(zip(names, args)))
+    vals.update({k: v for k, v in kwargs.items() if k in names})
+    for n in ("year", "month", "day"):
+        if n not in vals:
+            I.raise_py(TypeError, f"function missing required argument '{n}'")
+    for n in names:
+        if vals[n] is None:
+            I.raise_py(TypeError, "an integer is required (got type NoneType)")
+    _check_date(I, *(_need_int(I, vals[n], n) for n in names[:3]))
+    _check_time(I, *(_need_int(I, vals[n], n) for n in names[3:]))
+    return Opaque("datetime", dict(vals, __class__=_dt.datetime))
+
+
 # ----------------------------------------------------------------------------- copy
 import copy as _copy  # noqa: E402
 
